@@ -89,7 +89,7 @@ TrHandle ==
         /\ rt' = IF Ev.res = "ok" THEN DoHandle(rt, pat, Ev.h, mws, Ev.methods) ELSE rt
         /\ prevRt' = rt /\ lastEv' = "handle"
         /\ tt' = IF Ev.res # "ok" THEN tt
-                 ELSE IF tt.v = "?" \/ P.err # "" THEN Untracked
+                 ELSE IF tt.v = "?" \/ P.err # "" \/ Cardinality(ParamIdx(P.atoms)) > 8 THEN Untracked   \* (the model tree is not carried for very wide patterns)
                  ELSE TreeAdd(rt.cfg.icpt, tt, pat, ToSet(EffMethods(Ev.methods)))
 
 \* creating a Prefix / Resource object changes nothing; later calls through it are desugared with its chain
